@@ -15,6 +15,7 @@ import (
 
 	"github.com/pkg/sftp"
 
+	"verifharness/lib"
 	"verifharness/peers"
 	"verifharness/wire"
 )
@@ -90,10 +91,7 @@ func xfNewPeer(cfg xfCfg, o xfPeerOpts) (*xfPeer, error) {
 
 func (p *xfPeer) Shutdown() {
 	go p.Cli.Close()
-	select {
-	case <-p.done:
-	case <-time.After(5 * time.Second):
-	}
+	lib.WaitCleanup(xfProp+"/peer", 5*time.Second, p.done) // clean-up wait: bounded by the hang budget, stops no case
 	p.SS.Shutdown()
 }
 
